@@ -21,6 +21,8 @@ type fieldProcessInfo struct {
 	isSelectAll     bool   // Whether it's SELECT *
 	isStringLiteral bool   // Whether it's a string literal
 	stringValue     string // Pre-processed string literal value (quotes removed)
+	isNumberLiteral bool   // Whether it's a numeric literal
+	numberValue     any    // Pre-parsed numeric literal value (int64 or float64)
 	alias           string // Field alias for quick access
 }
 
@@ -302,6 +304,9 @@ func (s *Stream) compileSimpleFieldInfo(fieldSpec string) *fieldProcessInfo {
 
 	parts = splitFieldSpec(fieldSpec)
 	info.fieldName = parts[0]
+	// Check if it's a numeric literal (SELECT 7 AS r, SELECT 0.5 AS r); a
+	// backtick-quoted name such as `7` stays a column reference
+	info.numberValue, info.isNumberLiteral = parseNumberLiteral(info.fieldName)
 	// Remove backticks from field name
 	if len(info.fieldName) >= 2 && info.fieldName[0] == '`' && info.fieldName[len(info.fieldName)-1] == '`' {
 		info.fieldName = info.fieldName[1 : len(info.fieldName)-1]
@@ -333,6 +338,25 @@ func (s *Stream) compileSimpleFieldInfo(fieldSpec string) *fieldProcessInfo {
 	info.alias = info.outputName
 
 	return info
+}
+
+// parseNumberLiteral parses an unsigned or signed decimal number literal. Only
+// texts that start with a digit, sign or dot are considered, so column names
+// such as "inf" or "nan" are not mistaken for numbers.
+func parseNumberLiteral(text string) (any, bool) {
+	if text == "" || !(text[0] == '+' || text[0] == '-' || text[0] == '.' || (text[0] >= '0' && text[0] <= '9')) {
+		return nil, false
+	}
+	if strings.ContainsAny(text, "xXpP_iInN") {
+		return nil, false
+	}
+	if i, err := strconv.ParseInt(text, 10, 64); err == nil {
+		return i, true
+	}
+	if f, err := strconv.ParseFloat(text, 64); err == nil {
+		return f, true
+	}
+	return nil, false
 }
 
 // compileExpressionInfo pre-compiles expression processing information
@@ -622,6 +646,9 @@ func (s *Stream) processSimpleField(fieldSpec string, dataMap map[string]any, da
 	if info.isStringLiteral {
 		// String literal processing: use pre-compiled string value
 		result[info.alias] = info.stringValue
+	} else if info.isNumberLiteral {
+		// Numeric literal processing: use pre-parsed value
+		result[info.alias] = info.numberValue
 	} else if info.isFunctionCall {
 		// Execute function call
 		if funcResult, err := s.executeFunction(info.fieldName, dataMap); err == nil {
